@@ -8,7 +8,10 @@ fn main() {
     let name = argv.next().unwrap_or_default();
     let args = Args::parse(argv);
     if name == "selftest" {
-        let fails = fv::wgl::selftest();
+        let mut fails = fv::wgl::selftest();
+        fails.extend(fv::freerun::selftest_resize_monitor());
+        fails.extend(fv::types::selftest_ledger());
+        fails.extend(fv::inspect::selftest());
         for f in &fails {
             println!("SELFTEST-FAIL {f}");
         }
